@@ -42,10 +42,20 @@ class SymSeq:
         n = self.length()
         return interp.truth(n != 0)
 
+    SMALL_CAP = 6
+
     def _pyvc_iter(self, interp):
         n = self.length()
         if not isinstance(n, int):
-            raise Unsupported(f"iteration over symbolic-length {type(self).__name__}")
+            # small-length concretisation: fork over len == 0..cap when the path condition bounds the length
+            c = interp.ctx
+            if c.entails(tz(n) <= self.SMALL_CAP):
+                for i in range(self.SMALL_CAP + 1):
+                    if i == self.SMALL_CAP or c.branch(tz(n) == i):
+                        n = i
+                        break
+            else:
+                raise Unsupported(f"iteration over symbolic-length {type(self).__name__}")
         return iter([self.get(interp, i) for i in range(n)])
 
     def __iter__(self):
@@ -334,39 +344,99 @@ def _ite(c, a, b):
     return wrap(z3.If(tb(c), tz(a), tz(b)))
 
 
+def _nbkey(n, c):
+    return (tz(n).get_id(), tz(c).get_id())
+
+
+def _NB_CACHE_get(n, c):
+    try:
+        return sym.cur().ghost.setdefault("nbcache", {}).get(_nbkey(n, c))
+    except Unsupported:
+        return None
+
+
+def _NB_CACHE_put(n, c, nb):
+    try:
+        sym.cur().ghost.setdefault("nbcache", {})[_nbkey(n, c)] = nb
+    except Unsupported:
+        pass
+
+
 class ChunkSeq(Grid):
     """The regular grid normalize_chunks produces for extent n >= 0 and chunk size c >= 1:
-    (c,)*(n//c) + ((n%c,) if n%c else ())   for n > 0,   (0,) for n == 0."""
+    (c,)*(n//c) + ((n%c,) if n%c else ())   for n > 0,   (0,) for n == 0.
 
-    def __init__(self, n, c):
+    The number of blocks is kept as an integer variable `nb` with its defining (division-free) constraints
+        nb >= 1,  n == 0 -> nb == 1,  n > 0 -> (nb-1)*c < n <= nb*c
+    (a conservative definitional extension: exactly one such nb exists for every n >= 0, c >= 1), which keeps the
+    common obligations — block coordinates in range, region arithmetic — free of div/mod terms."""
+
+    def __init__(self, n, c, nb=None, canonical=False):
+        # canonical: 1 <= c <= max(n, 1)  (what normalize_chunks yields for an array's own chunking)
         self.n, self.c = n, c
+        self.nb = nb
+        self.canonical = canonical
+        if nb is not None:
+            _NB_CACHE_put(n, c, nb)
 
     def length(self):
         n, c = self.n, self.c
         if isinstance(n, int) and isinstance(c, int):
             return 1 if n == 0 else -(-n // c)
-        return _ite(tz(n) == 0, 1, (tz(n) + tz(c) - 1) / tz(c))
+        if self.nb is None:
+            cached = _NB_CACHE_get(n, c)
+            if cached is not None:
+                self.nb = cached
+            elif isinstance(c, int) and c == 1:
+                self.nb = _ite(tz(n) == 0, 1, n)
+            else:
+                ctx = sym.cur()
+                nb = ctx.fresh_int("nb", lo=1)
+                nz, cz, bz = tz(n), tz(c), nb.t
+                ctx.assume(z3.Implies(nz == 0, bz == 1))
+                ctx.assume(z3.Implies(nz > 0, z3.And((bz - 1) * cz < nz, nz <= bz * cz)))
+                self.nb = nb
+                _NB_CACHE_put(n, c, nb)
+        return self.nb
 
     def get(self, interp, k):
+        # case split by forking (keeps every path's terms free of if-then-else)
         n, c = self.n, self.c
+        if interp.truth(n == 0):
+            return 0
+        if self.canonical and isinstance(k, int) and k == 0:
+            return c
         ln = self.length()
-        return _ite(tz(n) == 0, 0, z3.If(tz(k) < tz(ln) - 1, tz(c), tz(n) - (tz(ln) - 1) * tz(c)))
+        if interp.truth(k < ln - 1):
+            return c
+        return n - (ln - 1) * c
 
     def prefix(self, interp, k):
         """sum of the first k block sizes, 0 <= k <= len."""
         n, c = self.n, self.c
         ln = self.length()
-        return _ite(tz(k) >= tz(ln), tz(n), tz(k) * tz(c))
+        ctx = interp.ctx
+        if ctx.entails(tz(k) < tz(ln)):
+            return k * c
+        if interp.truth(k >= ln):
+            return n
+        return k * c
 
     def total(self, interp):
         return self.n
 
     def maxv(self, interp):
         n, c = self.n, self.c
-        return _ite(tz(n) == 0, 0, z3.If(tz(c) < tz(n), tz(c), tz(n)))
+        if interp.truth(n == 0):
+            return 0
+        if self.canonical or interp.truth(c < n):
+            return c
+        return n
 
     def clip(self):
         n, c = self.n, self.c
+        if self.canonical:
+            return tz(c)
         return z3.If(tz(c) < tz(n), tz(c), tz(n))
 
     def grid_eq(self, other):
@@ -443,3 +513,134 @@ class PrefixSeq(SymSeq):
 
     def get(self, interp, k):
         return self.grid.prefix(interp, k)
+
+
+class SymHashSet:
+    """A python set whose elements may be symbolic: membership/dedup decided by forking on equality."""
+
+    _pyvc_symbolic = True
+
+    def __init__(self, interp, items=()):
+        self.interp = interp
+        self.items = []
+        for x in items:
+            self.add(x)
+
+    def _eq(self, a, b):
+        if a is b:
+            return True
+        if not sym.deep_sym(a) and not sym.deep_sym(b):
+            try:
+                return bool(a == b)
+            except Exception:
+                return False
+        return self.interp.truth(self.interp.compare(ast.Eq(), a, b))
+
+    def union(self, *others):
+        out = SymHashSet(self.interp, self.items)
+        for o in others:
+            out.update(o)
+        return out
+
+    def intersection(self, *others):
+        out = self
+        for o in others:
+            out = out & o
+        return out
+
+    def difference(self, *others):
+        out = self
+        for o in others:
+            out = out - o
+        return out
+
+    def issubset(self, other):
+        return all(any(self._eq(x, y) for y in other) for x in self.items)
+
+    def __le__(self, other):
+        return self.issubset(other)
+
+    def __ge__(self, other):
+        return all(y in self for y in other)
+
+    def clear(self):
+        self.items = []
+
+    def __repr__(self):
+        return "{" + ", ".join(repr(x) for x in self.items) + "}"
+
+    def add(self, x):
+        for y in self.items:
+            if self._eq(x, y):
+                return
+        self.items.append(x)
+
+    def update(self, xs):
+        for x in xs:
+            self.add(x)
+
+    def discard(self, x):
+        self.items = [y for y in self.items if not self._eq(x, y)]
+
+    def remove(self, x):
+        n = len(self.items)
+        self.discard(x)
+        if len(self.items) == n:
+            raise PyExc(KeyError, ("<sym>",))
+
+    def __iter__(self):
+        return iter(list(self.items))
+
+    def __len__(self):
+        return len(self.items)
+
+    def __contains__(self, x):
+        return any(self._eq(x, y) for y in self.items)
+
+    def _pyvc_contains(self, interp, x):
+        return x in self
+
+    def __bool__(self):
+        return bool(self.items)
+
+    def __sub__(self, other):
+        out = SymHashSet(self.interp)
+        out.items = [x for x in self.items if not any(self._eq(x, y) for y in other)]
+        return out
+
+    def __rsub__(self, other):
+        out = SymHashSet(self.interp)
+        out.items = [x for x in other if x not in self]
+        return out
+
+    def __or__(self, other):
+        out = SymHashSet(self.interp, self.items)
+        out.update(other)
+        return out
+
+    __ror__ = __or__
+
+    def __and__(self, other):
+        out = SymHashSet(self.interp)
+        out.items = [x for x in self.items if any(self._eq(x, y) for y in other)]
+        return out
+
+    __rand__ = __and__
+
+    def __eq__(self, other):
+        if not isinstance(other, (set, frozenset, SymHashSet)):
+            return False
+        o = list(other)
+        return len(o) == len(self.items) and all(x in self for x in o)
+
+    def __ne__(self, other):
+        return not self.__eq__(other)
+
+    def __hash__(self):
+        return id(self)
+
+    def copy(self):
+        return SymHashSet(self.interp, self.items)
+
+    def pop(self):
+        return self.items.pop()
